@@ -95,6 +95,7 @@ def step_event(tid, bp, call: int, fork: bool = False) -> Dict[str, Any]:
 
 def history_trace(tid, dealer: int, vul: int, hist: Sequence[int], *,
                   offer_all_at_end: bool = False,
+                  offer_set: Optional[Sequence[int]] = None,
                   illegal_at_each_prefix: bool = False,
                   after_end: bool = True) -> List[Dict[str, Any]]:
     """Drives a fresh BiddingPhase through `hist`."""
@@ -113,7 +114,7 @@ def history_trace(tid, dealer: int, vul: int, hist: Sequence[int], *,
         evs.append(step_event(tid, bp, c))
     if offer_all_at_end and not bp.has_done():
         av = list(bp.available_bid)
-        for c in range(38):
+        for c in (range(38) if offer_set is None else offer_set):
             legal = c < len(av) and av[c] == 1
             evs.append(step_event(tid, bp, c, fork=legal))
     if after_end and bp.has_done():
@@ -276,6 +277,9 @@ def _trace_job(job):
     kind, tid, d, v, h = job
     if kind == 'walk':
         return history_trace(tid, d, v, h, offer_all_at_end=True)
+    if isinstance(kind, tuple):      # ('walk', offered calls)
+        return history_trace(tid, d, v, h, offer_all_at_end=True,
+                             offer_set=kind[1], after_end=False)
     if kind == 'prefix':
         return history_trace(tid, d, v, h, illegal_at_each_prefix=True)
     return history_trace(tid, d, v, h)
@@ -318,13 +322,14 @@ def run(pid: str, tier: str) -> int:
                             'quotient of the full 35-bid auction (control state)')
     else:
         if quick:
-            bids = [0, 1, 5, 6]                # 2 levels x 2 strains
+            bids = (0, 1, 5, 6)                # 2 levels x 2 strains
         else:
-            bids = [5 * l + s for l in range(7) for s in (0, 1)]
+            bids = tuple(5 * l + s for l in range(7) for s in (0, 1))
         q = export_quotient(chk, bids, range(4), [sd % 4], 'ContractView',
                             f'quotient with first-to-name table, bids {bids}')
     for k, (d, v, h) in enumerate(q):
-        jobs.append(('walk', f'q{k}', d, v, h))
+        jobs.append((('walk', tuple(bids) + (PASS, DBL, RDBL)) if pid == 'C03'
+                     else 'walk', f'q{k}', d, v, h))
     nsim = 150 if quick else 3000
     for spec in ('LegalSpec', 'SlowSpec'):
         sims = export_simulated(chk, nsim if spec == 'LegalSpec' else nsim // 5,
@@ -378,7 +383,7 @@ def run(pid: str, tier: str) -> int:
             cur[1] = cur[1] + [e['call']]
     chk.distinct = seen
     for j in jobs[:2] + jobs[len(q):len(q) + 2] + jobs[-2:]:
-        chk.sample({'source': j[0], 'dealer': j[2], 'vul': j[3], 'history': j[4]})
+        chk.sample({'source': j[0] if isinstance(j[0], str) else j[0][0], 'dealer': j[2], 'vul': j[3], 'history': j[4]})
     chk.extra['events'] = len(events)
     chk.extra['histories'] = len(jobs)
 
